@@ -46,7 +46,10 @@ def service_case(draw, auto):
                 'length_km': None}
     # per-channel impairments: fibres with a dispersion slope and a CD penalty table that ends inside the range of CD values
     # the channels reach (placed after the probe run, like the thresholds): some channels are outside the table
-    cd_cut = draw(st.one_of(st.none(), st.none(), st.floats(0.05, 0.95).map(lambda v: round(v, 3))))
+    # (values above 1 put the end of the table beyond every forward channel: the other direction of an asymmetric link may
+    # still be outside)
+    cd_cut = draw(st.one_of(st.none(), st.none(), st.floats(0.05, 0.95).map(lambda v: round(v, 3)),
+                            st.sampled_from([1.5, 4.0, 20.0])))
     if cd_cut is not None:
         chain_kw['fiber_kw']['dispersion_slope'] = draw(st.sampled_from([59.0, 80.0, 45.0]))
     topo, truth = draw(netgen.topology(eq, n=(2, 3), extra_max=1, chain_kw=chain_kw, per_degree=False,
@@ -341,6 +344,10 @@ def _run(case, ctx):
         ctx.nontrivial(len(order) >= 2)
         return
     ctx.label('auto:selected')
+    if len(twins) > 1:
+        # several candidate modes with the same baud rate and bit rate: which of them comes first is not stated
+        ctx.label('not-judged:same-baud-and-bit-rate')
+        return
     if case['bidir']:
         both, _ = verdict_for(expected, fixed[expected['format']][0])
         if both == 'error':
